@@ -83,6 +83,11 @@ fn main() {
         }
         "C17" => c17::run(seed, &tier, shard),
         "C18" => c18::run(seed, &tier, shard, nshards, atom.as_deref()),
+        "C14" => c14::run(seed, &tier, shard, atom.as_deref()),
+        "C14W" => {
+            report::init("C14", "witness", seed, shard, &out);
+            c14::run_witness(seed, shard)
+        }
         "C12" => {
             if shard == 0 {
                 witness::run_witnesses("C12");
